@@ -224,7 +224,11 @@ class ManageSieveConnection:
             return Response(Condition.NO, text='Invalid SASL mechanism.')
         responses: list[ChallengeResponse] = []
         if cmd.initial_data is not None:
-            resp_dec = b64decode(cmd.initial_data)
+            try:
+                resp_dec = b64decode(cmd.initial_data)
+            except binascii.Error:
+                return Response(Condition.NO,
+                                text='Invalid authentication response.')
             responses.append(ChallengeResponse(b'', resp_dec))
         while True:
             try:
@@ -236,7 +240,11 @@ class ManageSieveConnection:
                 self.writer.write(b'\r\n')
                 await self.writer.drain()
                 resp_bytes = await self._read_data()
-                resp_str, _ = String.parse(resp_bytes, self.params)
+                try:
+                    resp_str, _ = String.parse(resp_bytes, self.params)
+                except NotParseable:
+                    return Response(Condition.NO,
+                                    text='Invalid authentication response.')
                 if resp_str.value == b'*':
                     return Response(Condition.NO,
                                     text='Authentication cancelled.')
@@ -249,6 +257,9 @@ class ManageSieveConnection:
                     responses.append(ChallengeResponse(chal.data, resp_dec))
             except AuthenticationError as exc:
                 return Response(Condition.NO, text=str(exc))
+            except UnicodeDecodeError:
+                return Response(Condition.NO,
+                                text='Invalid authentication response.')
             else:
                 break
         if final is None:
